@@ -10,6 +10,7 @@ import PrioModel.Poly
 import PrioModel.Flp
 import PrioModel.Prio3
 import PrioModel.Ctor
+import PrioModel.Par
 
 /-! Line-protocol driver: one request per line on stdin, one answer per line on stdout. -/
 open Prio
@@ -719,12 +720,42 @@ def handleC16 (args : List String) : String :=
     | _, _, _ => "bad-op"
   | _ => "bad-op"
 
+/-- preorder schedule: `L` or `S,k,<left>,<right>` -/
+def parseSched : Nat → List String → Option (Par.Sched × List String)
+  | 0, _ => none
+  | _ + 1, "L" :: rest => some (.leaf, rest)
+  | fuel + 1, "S" :: k :: rest => do
+    let k ← k.toNat?
+    let (l, rest) ← parseSched fuel rest
+    let (r, rest) ← parseSched fuel rest
+    pure (.split k l r, rest)
+  | _, _ => none
+
+def handleC14 (args : List String) : String :=
+  match args with
+  | ["mt", f, chunks, outLen, sched, polys] =>
+    match chunks.toNat?, outLen.toNat?, parseSched 64 (sched.splitOn ",") with
+    | some ch, some ol, some (s, []) => withField f fun q sz =>
+      let C := fieldCtx f q
+      match (polys.splitOn ",").mapM (fun h => (hexVec q sz h).map List.toArray) with
+      | some inp =>
+        let show' (r : Flp.Res (Array (Fin (q + 1)))) : String :=
+          match r with
+          | .ok v => "ok " ++ toHex (encodeFieldVec sz v.toList)
+          | .err => "err"
+          | .panic => "panic"
+        show' (Flp.Gadget.evalPoly C ⟨.parallelSumMul ch, 1⟩ ol inp) ++ " " ++ show' (Par.evalPolyMT C ch 1 ol s inp)
+      | none => "bad-op"
+    | _, _, _ => "bad-op"
+  | _ => "bad-op"
+
 def handle (line : String) : String :=
   match line.trimAscii.toString.splitOn " " with
   | "fp" :: rest => handleFp rest
   | "dec" :: rest => handleDec rest
   | "p3" :: rest => handleP3 rest
   | "c16" :: rest => handleC16 rest
+  | "c14" :: rest => handleC14 rest
   | "flp" :: op :: rest => handleFlp op rest
   | "poly" :: op :: rest => handlePoly op rest
   | "idpf" :: rest => handleIdpf rest
